@@ -22,6 +22,10 @@
 (* A fourth variant is selected by a definition override in the configuration:           *)
 (*   RejVal <- RejValWorking   a reject reply carries the working value instead of the   *)
 (*                    committed one (a lagging proposer installs an uncommitted write)    *)
+(* and a fifth one the same way:                                                         *)
+(*   AbortResend <- AbortResendUntilQuorum   an Abort that met a transport error is not  *)
+(*                    sent again once its broadcast has its quorum of answers: a replica  *)
+(*                    that accepted the PreCommit and misses the Abort stays captured     *)
 EXTENDS Integers, Sequences, FiniteSets, TLC
 
 CONSTANTS Nodes, Writers, MaxSect, MaxVer, DropBudget, DupBudget, Filter, ValueEq, SoloTries,
@@ -314,6 +318,16 @@ Dup(m) ==
 (* a response reaches the proposer: handler of doPreCommit / loop of broadcastAbortOrCommit *)
 
 Counts(p, r) == r.st = bc[p] /\ op[p] \in {"pc", "rollback", "abortrb", "commit"}
+
+\* broadcastAbortOrCommit, an Abort whose Send returned a transport error: the goroutine of that replica sleeps 1 s and
+\* sends the Abort again while the proposer's version is unchanged (ShouldRetry), whether or not broadcast() already
+\* returned with its quorum -- the replica may hold the PreCommit this Abort revokes, and nobody else will release it.
+\* AbortResendUntilQuorum is the model variant "the goroutine ends when the error arrives after the quorum answered"
+\* (seed C11-B; the isDone callback of broadcast()); a configuration selects it with
+\* AbortResend <- AbortResendUntilQuorum  (LAReplay.tla, MC3LostAbort.cfg: vacuity guards / schedule generators).
+BroadcastOpen(p, r) == r.st = bc[p] /\ op[p] \in {"rollback", "abortrb"} /\ need[p] > 0
+AbortResend(p, r)            == TRUE
+AbortResendUntilQuorum(p, r) == BroadcastOpen(p, r)
 Learn(p, r)  == ~r.err /\ ~r.acc /\ r.rver > version[p]
 
 Release(r) ==
@@ -328,6 +342,9 @@ Release(r) ==
                     THEN /\ need' = [need EXCEPT ![p] = IF ~r.err /\ r.acc THEN need[p] - 1 ELSE need[p]]
                          /\ rem' = [rem EXCEPT ![p] = rem[p] - 1]
                     ELSE UNCHANGED <<need, rem>>
+          ELSE IF r.err /\ r.type = "Abort" /\ ~AbortResend(p, r)
+                 THEN \* variant only: the goroutine gives the replica up (its answer is not awaited any more)
+                      UNCHANGED <<reqs, need, rem>>
           ELSE IF r.err
                  THEN \* sleep 1 s, then shouldRetry(): modelled by Wake
                       /\ reqs' = reqs \cup {[from |-> r.from, to |-> r.to, type |-> r.type, ver |-> r.ver, val |-> r.val,
